@@ -318,6 +318,11 @@ func checkC13(P *Prog, r *Result) {
 	// particular already-typed values within range are kept; and neither mode keeps private state between calls
 	shareRule(P, r, checkC03, "C03/coercion-table", nil, "C13/coercion-table", 5)
 	shareRule(P, r, checkC07, "C07/no-global-state", nil, "C13/no-mode-private-state", 30)
+	// the same issue path in both modes: Parse names a field of a plain map by (zog tag, else schema key) through
+	// GetKeyFromField with no source tag, which is the rule Validate applies inline (C10's tag-priority and
+	// segment-source rules)
+	shareRule(P, r, checkC10, "C10/tag-priority", nil, "C13/same-path-key", 1)
+	shareRule(P, r, checkC10, "C10/segment-source", nil, "C13/same-path-segment", 1)
 }
 
 // deferredUnits: the closures and relevant helpers the node function itself defers.
